@@ -76,7 +76,13 @@ def mk(run, cfg):
     elif shape == 'fi':
         add['coupons'] = frame(run, dts, ['a'], lambda i, c: 0.25)
         add['notl'] = pd.Series([1000.0, 1500.0, 500.0, 1000.0], index=dts)
-        s = C.FixedIncomeStrategy('s', [A.RunDaily(), A.SelectThese(['a', 'b']), A.WeighSpecified(a=0.75, b=-0.25), A.SetNotional('notl'), A.Rebalance()],
+        class Hedge(B.Algo):
+            """keeps a position in the hedge security (notional zero by construction, market value not)"""
+            def __call__(self, target):
+                if target['c'].position == 0:
+                    target.transact(-50.0, 'c')
+                return True
+        s = C.FixedIncomeStrategy('s', [A.RunDaily(), A.SelectThese(['a', 'b']), A.WeighSpecified(a=0.75, b=-0.25), A.SetNotional('notl'), A.Rebalance(), Hedge()],
                                   [C.CouponPayingSecurity('a'), C.CouponPayingSecurity('b'), C.HedgeSecurity('c')])
         add['coupons'] = frame(run, dts, ['a', 'b'], lambda i, c: 0.25)
     else:
